@@ -41,9 +41,8 @@ ASSUMPTIONS = [
     "key categories are interned in sorted order (pandas groupby order = model group order); simulant labels are unique",
     "NaN attributes / NaN edges and non-numeric parameter columns are outside the model (requests may repeat labels: "
     "covered by the theorems and generated)",
-    "the theorems C15_bin_membership / C15_extrapolate / C15_edges assume `wf` = the code's own validation "
-    "(check_data_complete) AND that rows with the same left edge have the same right edge, which the code does not "
-    "check (validation gap: the last bin's right edge may differ between sub-tables; see the report)",
+    "the theorems C15_bin_membership / C15_extrapolate / C15_edges assume `wf` = a frame accepted by the code's own "
+    "validation (check_data_complete incl. the covered-range check of fix 1620b43e, finding F-AC), nothing more",
 ]
 LEVEL_NOTE = ("full on well-formed data (wf); C15_year_current carries the guard day-of-year <= 365, "
               "C15_year_leap_dec31_refuted exhibits the excluded class = Dec 31 of a leap year (open finding F-N)")
@@ -58,8 +57,7 @@ CLAIM = {
             "tied to /repo/src by vm_compute-decided agreement on generated real-context cases (boundary-rich, malformed "
             "data included) and a brute-force row-scan oracle.",
     "note": "well-formedness = the code's own validation (check_data_complete, transcribed and compared with the real "
-            "validation on malformed data) plus 'equal left edges have equal right edges', which the code does not "
-            "validate; floats modelled as scaled integers (inputs are multiples of 1/8); `year` theorem guarded by "
+            "validation on malformed data; since fix 1620b43e nothing else is assumed); floats modelled as scaled integers (inputs are multiples of 1/8); `year` theorem guarded by "
             "day-of-year <= 365 (open finding F-N); NaN / non-numeric parameters and "
             "keys absent from the data (KeyError, modelled as rejection) outside the theorems; correspondence sampled",
 }
@@ -333,7 +331,8 @@ def year_scaled(f):
 # ----------------------------------------------------------------------------------------------------------------
 def grid_groups(t):
     """Declarative well-formedness: per key tuple, the rows are exactly the product of per-parameter left-edge sets, a
-    row's right edge is the next left edge, and the right edge of the last bin is the same in every row.
+    row's right edge is the next left edge, and along every line of the grid (all other parameters fixed) the largest
+    right edge is the parameter's largest right edge in the whole group (same covered range everywhere).
     Returns {key: rows} or None."""
     k = len(t["params"])
     if not t["rows"] or k == 0:
@@ -348,8 +347,11 @@ def grid_groups(t):
         if len(got) != len(want) or set(got) != want:
             return None
         for p in range(k):
-            last_ends = {r["b"][p][1] for r in G if r["b"][p][0] == E[p][-1]}
-            if len(last_ends) != 1:
+            top = max(r["b"][p][1] for r in G)
+            lines = {}
+            for r in G:
+                lines.setdefault(tuple(b[0] for j, b in enumerate(r["b"]) if j != p), []).append(r["b"][p][1])
+            if any(max(ends) != top for ends in lines.values()):
                 return None
             for r in G:
                 s, e = r["b"][p]
@@ -430,6 +432,24 @@ def oracle_binned(case, t, rec, groups):
     return True, ""
 
 
+def oracle_contains(case, t, rec):
+    """Validated data, extrapolation off: the row whose values were returned has bins containing the simulant's values."""
+    n = len(case["pop"]["ka"])
+    yx = Fraction(rec["yfloat"]) * DEN if "yfloat" in rec else None
+    for i, vals in rec["rows"]:
+        if vals is None or not (0 <= i < n):
+            return False, f"simulant {i}: no row returned without extrapolation on validated data"
+        G = [r for r in t["rows"] if r["k"] == sim_keys(case, t, i)]
+        cands = [r for r in G if list(r["v"]) == list(vals)]
+        xs = [yx if p == "year" else Fraction(case["pop"][p][i]) for p in t["params"]]
+        if any(x is None for x in xs):
+            continue
+        if cands and not any(all(b[0] <= x < b[1] for b, x in zip(r["b"], xs)) for r in cands):
+            return False, (f"validated data, extrapolation off: simulant {i} with values {[float(x) / DEN for x in xs]} "
+                           f"received the row with bins {[[e / DEN for e in b] for b in cands[0]['b']]}, which does not contain them")
+    return True, ""
+
+
 # ----------------------------------------------------------------------------------------------------------------
 # running a binned case
 # ----------------------------------------------------------------------------------------------------------------
@@ -445,6 +465,9 @@ def run_binned(case):
         ypos = t["params"].index("year") if "year" in t["params"] else None
         recs = calls[ti]
         called += len(recs)
+        if "last_end" in (case.get("note") or []):
+            tags.add("range_defect_" + ("rejected" if tab is None else "built_valid" if groups is not None else
+                                        "built_unvalidated" if not case["validate"] else "built_INVALID"))
         if tab is None:
             tags.add("build_rejected")
             if groups is not None:
@@ -466,6 +489,12 @@ def run_binned(case):
                 o, m_ = oracle_binned(case, t, rec, groups)
                 if not o and ok:
                     ok, msg = False, f"table {ti} {rec['where']} {rec['y']}-{rec['yday']} idx={rec['idx']}: {m_}"
+            elif case["validate"] and tab is not None and not case["ext"] and rec["code"] == 0:
+                # data that the code's validation ACCEPTED is "well-formed" by the code's own standard: without
+                # extrapolation a returned row must then contain the simulant's values (finding F-AC class)
+                o, m_ = oracle_contains(case, t, rec)
+                if not o and ok:
+                    ok, msg = False, f"table {ti} {rec['where']} idx={rec['idx']}: {m_}"
         coq_tables.append(cpair(cbool(case["ext"]), cbool(case["validate"]), cnat(k), copt(ypos, cnat), cz(DEN),
                                 coq_rows(t), coq_pop(case, t), cz(0 if tab is not None else 1),
                                 cbool(groups is not None), clist(ccalls)))
@@ -708,7 +737,7 @@ def mutate_table(rng, t):
     rows = t["rows"]
     k = len(t["params"])
     kind = rng.choice(["gap", "overlap", "drop", "dup", "dup_vals", "shift_start", "last_end", "swap", "dup_start",
-                       "empty", "last_end"])
+                       "empty", "last_end", "last_end"])
     if not rows:
         return "none"
     r = rng.choice(rows)
